@@ -24,7 +24,7 @@ LEVEL = "exploration"
 RULE = ("one run = one generated program nesting the three scoping constructs to depth <= 8 with re-entry, "
         "every exit kind (return, raise of 14 classes, cancellation, generator close/throw) at each level; "
         "oracle: identity of current_action() against the model stack after every op and at every scope "
-        "entry/exit, plus parsed-forest == model forest. distinct = distinct (program shape, cancel/fault "
+        "entry/exit, plus: in the parsed log every action and message hangs under the action the model says (structure only). distinct = distinct (program shape, cancel/fault "
         "counts); non-trivial = depth >= 2.")
 REAL = base.REAL
 STUBS = base.STUBS
